@@ -348,14 +348,18 @@ func (a *VersionedAttestation) UnmarshalSSZ(b []byte) error {
 	if err != nil {
 		// Previously a bug was introduced where validator index was not marshaled.
 		// Ensure backwards compatibility with nodes that have not yet updated to the new fixed version.
-		if !errors.Is(err, ssz.ErrOffset) {
-			return errors.Wrap(err, "unmarshal VersionedAttestation")
+		// Try the legacy layout on any error: legacy bytes can pass the offset check of the new layout
+		// by coincidence (slot equal to 20 mod 2^32) and then fail while decoding the value.
+		legacyVersion, legacyErr := unmarshalSSZVersioned(b, a.sszValFromVersion)
+		if legacyErr != nil {
+			if !errors.Is(err, ssz.ErrOffset) {
+				return errors.Wrap(err, "unmarshal VersionedAttestation")
+			}
+
+			return errors.Wrap(legacyErr, "unmarshal VersionedAttestation without validator index")
 		}
 
-		version, err = unmarshalSSZVersioned(b, a.sszValFromVersion)
-		if err != nil {
-			return errors.Wrap(err, "unmarshal VersionedAttestation without validator index")
-		}
+		version = legacyVersion
 	}
 
 	a.Version = version.ToETH2()
